@@ -293,6 +293,31 @@ func defsRules(tmp string, enc *json.Encoder) []*ruleOut {
 				return b2t(objKind(objOf(s)) == k)
 			})
 		}
+		// the type of a declaring identifier is the type of the object it declares (Info.TypeOf asks Defs as well; Info.Types has
+		// no entry for it); an identifier without an object (a label, a package name, the symbol of a type switch) has none
+		for _, tp := range []string{"int", "string", "func($*_) $*_", "map[string]int"} {
+			tp := tp
+			add("Type.Is:"+tp, "makeTypeIsFilter", filt.Call("Type.Is", c.at, filt.Str(tp)), func(s *famSite) tri {
+				var typ types.Type
+				for _, n := range s.nodes {
+					if x, ok := n.(ast.Expr); ok {
+						typ = t.Info.TypeOf(x)
+						break
+					}
+				}
+				if typ == nil {
+					return no
+				}
+				switch tp {
+				case "func($*_) $*_":
+					_, ok := types.Unalias(typ).(*types.Signature)
+					return b2t(ok)
+				case "map[string]int":
+					return b2t(types.Identical(typ, types.NewMap(types.Typ[types.String], types.Typ[types.Int])))
+				}
+				return b2t(types.Identical(typ, types.Universe.Lookup(tp).Type()))
+			})
+		}
 		add("Object.IsGlobal", "makeObjectIsGlobalFilter", filt.Call("Object.IsGlobal", c.at), func(s *famSite) tri {
 			o := objOf(s)
 			return b2t(o != nil && o.Parent() == t.Pkg.Scope())
